@@ -156,6 +156,18 @@ func run(c *fw.Ctx) {
 	// Size is an input dimension too (added after seeded change C18-8: a different code path for
 	// text above 128 KiB): texts from 4 KiB to 4 MiB built from the same hostile pieces, with sizes
 	// on both sides of the powers of two, and runs of characters that escaping expands five-fold.
+	// The same for HTML bodies (added after seeded change C18-12: a tokenizer buffer cap and a
+	// fallback that skips the style filter): an ordinary generated document with ONE very large
+	// token spliced in - a text run, a comment (closed or not), an attribute value such as an inline
+	// data URI, a run of entities - of 4 KiB to 4 MiB, before, between or after styled elements.
+	c.Cases("bightml", c.N(60, 600), func(i int, r *fw.Rand) {
+		t := tally{}
+		in := genBigHTML(r, i, c.Quick())
+		t["bightml_inputs"]++
+		t["bightml_bytes"] += int64(len(in))
+		evalHTML(c, t, "bightml", in, false)
+		t.flush(c)
+	})
 	c.Cases("bigtext", c.N(64, 640), func(i int, r *fw.Rand) {
 		t := tally{}
 		in := genBigText(r, i, c.Quick())
@@ -168,6 +180,44 @@ func run(c *fw.Ctx) {
 }
 
 var bigTextSizes = []int{4 << 10, 32 << 10, 64<<10 - 1, 64<<10 + 1, 100 << 10, 128<<10 - 7, 128 << 10, 128<<10 + 1, 131 << 10, 200 << 10, 256<<10 + 1, 512 << 10, 1 << 20, 1<<20 + 3, 2 << 20, 4 << 20}
+
+// genBigHTML builds a document with one very large token.
+func genBigHTML(r *fw.Rand, idx int, quick bool) string {
+	sizes := []int{4 << 10, 32 << 10, 64<<10 - 9, 64 << 10, 64<<10 + 1, 70 << 10, 128<<10 + 1, 256 << 10, 1 << 20, 1<<20 + 7, 4 << 20}
+	if quick {
+		sizes = sizes[:9]
+	}
+	n := sizes[idx%len(sizes)]
+	fill := func(alphabet string) string { return strings.Repeat(alphabet, n/len(alphabet)+1)[:n] }
+	var big string
+	switch (idx / len(sizes)) % 7 {
+	case 0:
+		big = fill("plain text run without any markup ")
+	case 1:
+		big = "<!-- " + fill("comment body ") + " -->"
+	case 2:
+		big = "<!-- " + fill("never closed ")
+	case 3:
+		big = `<img src="data:image/png;base64,` + fill("iVBORw0KGgoAAAANSUhEUgAA") + `" alt="x">`
+	case 4:
+		big = fill("&amp;&lt;&#60;&quot;")
+	case 5:
+		big = `<p title="` + fill("attribute value ") + `">titled</p>`
+	default:
+		big = "<![CDATA[" + fill("cdata ") + "]]>"
+	}
+	styled := func() string {
+		return `<div style="` + strings.ReplaceAll(strings.ReplaceAll(genCSS(r), "&", "&amp;"), `"`, "&quot;") + `">` + genPlainText(r) + `</div>`
+	}
+	parts := []string{genHTMLDoc(r), styled(), big, styled(), genHTMLDoc(r)}
+	switch r.Intn(3) {
+	case 0:
+		parts = []string{big, styled(), genHTMLDoc(r), styled()}
+	case 1:
+		parts = []string{styled(), genHTMLDoc(r), styled(), big}
+	}
+	return strings.Join(parts, pick(r, []string{"", "\n", " "}))
+}
 
 // genBigText builds a text whose length (half of the cases: whose HTML-escaped length) just
 // exceeds a size from bigTextSizes.
